@@ -43,6 +43,10 @@ pub enum N {
     Drop(u64),
 }
 
+/// The value downlink of this world is a downlink of `Option<i32>`; this number stands for `None` in scripts, callbacks
+/// and the reference fold. On the link it is an event with an EMPTY body.
+pub const NONE_VALUE: i32 = -1_000_000;
+
 /// A local write issued through the `MapDownlinkHandle` of a client map downlink.
 #[derive(Debug, Clone, Copy, Serialize, Deserialize, PartialEq, Eq)]
 pub enum MOp {
@@ -165,6 +169,17 @@ pub fn generate(seed: u64, map: bool) -> DtScenario {
                 _ => ev(&mut rng, &mut next),
             };
             script.push(x);
+        }
+    }
+    // In a quarter of the value scripts some events carry no value at all (`None`: an event with an empty body).
+    if !map {
+        let mut nr = root.sub("none-values");
+        if nr.chance(1, 4) {
+            for n in script.iter_mut() {
+                if matches!(n, N::Val(_)) && nr.chance(1, 4) {
+                    *n = N::Val(NONE_VALUE);
+                }
+            }
         }
     }
     let mut local_sets = vec![];
@@ -304,7 +319,7 @@ pub async fn run(sc: &DtScenario) -> Record {
     let path: Address<Text> = Address::text(None, "/node", "lane");
     let result: Rc<RefCell<Option<String>>> = Rc::new(RefCell::new(None));
     let r2 = result.clone();
-    let (set_tx, set_rx) = mpsc::channel::<ValueDownlinkSet<i32>>(8);
+    let (set_tx, set_rx) = mpsc::channel::<ValueDownlinkSet<Option<i32>>>(8);
     let (map_tx, map_rx) = mpsc::channel(8);
     let gate: Rc<RefCell<LocalGate>> = Rc::new(RefCell::new(LocalGate::default()));
     let task_node = if sc.map {
@@ -330,12 +345,13 @@ pub async fn run(sc: &DtScenario) -> Record {
         })
     } else {
         let tr = trace.clone();
-        let model = value_downlink::<i32>(set_rx).with_lifecycle(move |lc| {
+        let model = value_downlink::<Option<i32>>(set_rx).with_lifecycle(move |lc| {
             let (t1, t2, t3, t4, t5) = (tr.clone(), tr.clone(), tr.clone(), tr.clone(), tr.clone());
+            let n = |v: &Option<i32>| v.unwrap_or(NONE_VALUE);
             lc.on_linked_blocking(move || t1.lock().unwrap().push((now_step(), Cb::Linked)))
-                .on_synced_blocking(move |v: &i32| t2.lock().unwrap().push((now_step(), Cb::Synced(Some(*v), BTreeMap::new()))))
-                .on_event_blocking(move |v: &i32| t3.lock().unwrap().push((now_step(), Cb::Event(*v))))
-                .on_set_blocking(move |old: Option<&i32>, new: &i32| t4.lock().unwrap().push((now_step(), Cb::Set(old.copied(), *new))))
+                .on_synced_blocking(move |v: &Option<i32>| t2.lock().unwrap().push((now_step(), Cb::Synced(Some(n(v)), BTreeMap::new()))))
+                .on_event_blocking(move |v: &Option<i32>| t3.lock().unwrap().push((now_step(), Cb::Event(n(v)))))
+                .on_set_blocking(move |old: Option<&Option<i32>>, new: &Option<i32>| t4.lock().unwrap().push((now_step(), Cb::Set(old.map(n), n(new)))))
                 .on_unlinked_blocking(move || t5.lock().unwrap().push((now_step(), Cb::Unlinked)))
         });
         let fut = DownlinkTask::new(model).run(path, config, in_rx, out_tx);
@@ -369,7 +385,9 @@ pub async fn run(sc: &DtScenario) -> Record {
                 N::Synced => DownlinkNotification::Synced,
                 N::Unlinked => DownlinkNotification::Unlinked,
                 N::Val(v) => {
-                    body.extend_from_slice(v.to_string().as_bytes());
+                    if *v != NONE_VALUE {
+                        body.extend_from_slice(v.to_string().as_bytes());
+                    }
                     DownlinkNotification::Event { body: body.as_ref() }
                 }
                 other => {
@@ -464,7 +482,7 @@ pub async fn run(sc: &DtScenario) -> Record {
                     Yield(false).await;
                     polls += 1;
                 }
-                if set_tx.send(ValueDownlinkSet { to: v }).await.is_err() {
+                if set_tx.send(ValueDownlinkSet { to: Some(v) }).await.is_err() {
                     break;
                 }
             }
